@@ -26,7 +26,7 @@ impl builtins::Command for AliasCommand {
 
         if self.print || self.aliases.is_empty() {
             for (name, value) in context.shell.aliases() {
-                writeln!(context.stdout(), "alias {name}='{value}'")?;
+                writeln!(context.stdout(), "alias {name}={}", single_quoted(value))?;
             }
         } else {
             for alias in &self.aliases {
@@ -38,7 +38,7 @@ impl builtins::Command for AliasCommand {
                         .aliases_mut()
                         .insert(name.to_owned(), unexpanded_value.to_owned());
                 } else if let Some(value) = context.shell.aliases().get(alias) {
-                    writeln!(context.stdout(), "alias {alias}='{value}'")?;
+                    writeln!(context.stdout(), "alias {alias}={}", single_quoted(value))?;
                 } else {
                     writeln!(
                         context.stderr(),
@@ -51,5 +51,15 @@ impl builtins::Command for AliasCommand {
         }
 
         Ok(exit_code)
+    }
+}
+
+/// Single-quotes an alias body so that it can be read back: a single quote inside it
+/// closes the quoted text, is written escaped, and re-opens it (`'it'\''s'`).
+fn single_quoted(value: &str) -> String {
+    if value == "'" {
+        "\\'".to_owned()
+    } else {
+        format!("'{}'", value.replace('\'', "'\\''"))
     }
 }
